@@ -58,20 +58,25 @@ def cond_dict(level, c):
     raise ValueError(f"unknown condition {level} {c}")
 
 
-def expr_text(e):
+# names of the conditions in map + expression form: plain ones, and ones that begin with the words of the operators
+COND_NAMES = {"rule": ["c1", "c2"], "item": ["not_c1", "order2"], "field": ["android1", "and-c2"]}
+
+
+def expr_text(e, names):
     if e["k"] == "id":
-        return f"c{e['i']}"
+        return names[e["i"] - 1]
     if e["k"] == "not":
-        return "not (" + expr_text(e["a"]) + ")"
-    return "(" + expr_text(e["l"]) + f") {e['k']} (" + expr_text(e["r"]) + ")"
+        return "not (" + expr_text(e["a"], names) + ")"
+    return "(" + expr_text(e["l"], names) + f") {e['k']} (" + expr_text(e["r"], names) + ")"
 
 
 def group_keys(level, g, prefix):
     d = {}
     conds = [cond_dict(level, c) for c in g["conds"]]
     if g["link"] == "expr":
-        d[prefix + "_conditions"] = {f"c{i + 1}": c for i, c in enumerate(conds)}
-        d[prefix + "_cond_expr"] = expr_text(g["expr"])
+        names = COND_NAMES[level]
+        d[prefix + "_conditions"] = {names[i]: c for i, c in enumerate(conds)}
+        d[prefix + "_cond_expr"] = expr_text(g["expr"], names)
     else:
         d[prefix + "_conditions"] = conds
         if g["link"] in ("and", "or"):
